@@ -140,8 +140,17 @@ func isSpecialNetProtocol(protocol string) bool {
 	return false
 }
 
+// hostWithoutPort returns u.Host without a trailing ":port"; unlike u.Hostname() it keeps the brackets of an
+// IPv6 literal, so the result can be put back into u.Host.
+func hostWithoutPort(u *url.URL) string {
+	if port := u.Port(); port != "" {
+		return strings.TrimSuffix(u.Host, ":"+port)
+	}
+	return strings.TrimSuffix(u.Host, ":")
+}
+
 func clearURLPort(u *url.URL) {
-	u.Host = u.Hostname()
+	u.Host = hostWithoutPort(u)
 }
 
 func setURLPort(nu *nodeURL, v goja.Value) {
@@ -160,7 +169,7 @@ func setURLPort(nu *nodeURL, v goja.Value) {
 	if isDefaultURLPort(u.Scheme, portNum) {
 		clearURLPort(u)
 	} else {
-		u.Host = u.Hostname() + ":" + strconv.Itoa(portNum)
+		u.Host = hostWithoutPort(u) + ":" + strconv.Itoa(portNum)
 	}
 }
 
@@ -254,7 +263,7 @@ func (m *urlModule) createURLPrototype() *goja.Object {
 
 	// hostname
 	m.defineURLAccessorProp(p, "hostname", func(u *nodeURL) interface{} {
-		return strings.Split(u.url.Host, ":")[0]
+		return hostWithoutPort(u.url)
 	}, func(u *nodeURL, arg goja.Value) {
 		h := arg.String()
 		if strings.IndexByte(h, ':') >= 0 {
